@@ -138,8 +138,8 @@ func matchRegion(want []WErr, got []Err, depth int) (string, *WErr, *Err) {
 
 // Diff describes the first disagreement between a prescribed error list and the observed one.
 type Diff struct {
-	What  string `json:"what"`  // count | kind | path | app-tag | message | order
-	Src   string `json:"src"`   // step of the prescribed error concerned (when must npmust lref), "" if none
+	What  string `json:"what"` // count | kind | path | app-tag | message | order
+	Src   string `json:"src"`  // step of the prescribed error concerned (when must npmust lref), "" if none
 	Want  *WErr  `json:"want,omitempty"`
 	Got   *Err   `json:"got,omitempty"`
 	Index int    `json:"index"`
